@@ -261,6 +261,7 @@ func runParent(prop, tier string) int {
 		if okv[i] {
 			continue
 		}
+		fmt.Fprintf(os.Stderr, "worker %d died; stderr tail:\n%s\n", i, tail(stderrs[i], 1500))
 		// the worker died: re-run its shard with case tracing to find the case it died in
 		tr := filepath.Join(work, fmt.Sprintf("t%d.trace", i))
 		out := filepath.Join(work, fmt.Sprintf("w%d.json", i))
